@@ -27,6 +27,7 @@ def dumpStr (t : Root) : String :=
 
 def resStr : Res → String
   | .ok => "ok" | .dupKey => "dup-key" | .retry => "retry-tx" | .nothingToCommit => "nothing-to-commit"
+  | .unsupported => "unsupported"
 
 def parseStmt : List String → Option Stmt
   | ["begin"] => some .begin
@@ -34,6 +35,10 @@ def parseStmt : List String → Option Stmt
   | ["rollback"] => some .rollback
   | ["read"] => some .read
   | ["dcommit"] => some .dcommit
+  | ["reado"] => some .readO
+  | "inso" :: k :: cells => do pure (.writeO (.ins (← k.toInt?) (← cells.mapM parseCell)))
+  | ["updo", k, c, v] => do pure (.writeO (.upd (← k.toInt?) (← c.toNat?) (← parseCell v)))
+  | ["delo", k] => do pure (.writeO (.del (← k.toInt?)))
   | ["auto", b] => some (.setAuto (b == "1"))
   | "ins" :: k :: cells => do
       let k ← k.toInt?
@@ -55,7 +60,7 @@ def stepLine (w : World) : List String → World × String
       let (w', r, rows) := step w i st
       let rs := match rows with | some t => dumpStr t | none => "_"
       -- keep the ghost log from growing the closure chain's payload: nothing to do, it is data only
-      (w', s!"{resStr r} {rs} W={dumpStr w'.shared.working} S={dumpStr w'.shared.staged} H={dumpStr w'.shared.head}")
+      (w', s!"{resStr r} {rs} W={dumpStr w'.shared.working} S={dumpStr w'.shared.staged} H={dumpStr w'.shared.head} O={dumpStr w'.other}")
     | _, _ => (w, "bad-op")
   | _ => (w, "bad-op")
 
